@@ -241,17 +241,51 @@ fn judge_file_window(ctx: &mut Ctx, low_mark: usize, in_buf: usize, big_std_len:
     }
 }
 
+/// `adlt convert -o` on a normal-form file whose message number `pos` is large: the written file must be identical
+fn judge_cli_export(ctx: &mut Ctx, dir: &str, big_std_len: usize, pos: usize, case: &dyn Fn() -> Value) {
+    let mut src: Vec<u8> = vec![];
+    let n = 6usize;
+    for i in 0..n {
+        let mut m = shape(&Framing::Storage, if i == pos { WTMS | UEH } else { 0 }, 0, 0, i as u8, i);
+        let total = if i == pos { big_std_len } else { 60 + i };
+        m.payload = payload_bytes(total - m.hdr_size(), i as u8);
+        src.extend_from_slice(&m.to_bytes());
+    }
+    let (fin, fout) = (format!("{dir}/in-{big_std_len}-{pos}.dlt"), format!("{dir}/out-{big_std_len}-{pos}.dlt"));
+    std::fs::write(&fin, &src).expect("write input");
+    let _ = std::fs::remove_file(&fout);
+    let out = std::process::Command::new(crate::rem::adlt_bin()).arg("convert").arg("-o").arg(&fout).arg(&fin).output();
+    ctx.landmark("cli_export");
+    match out {
+        Err(e) => ctx.violation("cli_export", "spawn", case, format!("cannot run adlt: {e}")),
+        Ok(o) => {
+            let written = std::fs::read(&fout).unwrap_or_default();
+            if !o.status.success() {
+                ctx.violation("cli_export", "exit_status", case, format!("adlt convert -o exited with {:?}: {}", o.status.code(), String::from_utf8_lossy(&o.stderr).chars().take(200).collect::<String>()));
+            } else if written != src {
+                let got = DltMessageIterator::new(0, &written[..]).count();
+                ctx.violation("cli_export", "content", case, format!("adlt convert -o wrote {} bytes / {got} messages for a normal-form input of {} bytes / {n} messages (message {pos} has std length {big_std_len})", written.len(), src.len()));
+            }
+        }
+    }
+    let _ = std::fs::remove_file(&fin);
+    let _ = std::fs::remove_file(&fout);
+}
+
 impl Prop for C02 {
     fn meta(&self, _t: Tier) -> Meta {
         Meta {
             id: "C02",
             level: "exploration",
             rule: "exhaustive product over parsed messages: 32 header-flag sets x both framings x payload sizes {0..12,255,256,4096,max} and every size 0..max for 2 (thorough: all 32) flag sets x 3 id sets x reception corners (secs {0,1.6e9,u32::MAX} x micros {0,999999}) x timestamp {0,1,u32::MAX} x mcnt {0,255}; each message is parsed from independently built bytes, written with to_write, re-read with parse_dlt_with_storage_header (must consume exactly the written bytes and agree on ecu, reception time, timestamp and its presence, mcnt, byte-order flag, extended header, payload) and written again (byte-identical). Stream family: all sequences of <= 5 (thorough 6) messages from a 10-variant pool incl. payloads with embedded frame markers, exported back-to-back, re-read with DltMessageIterator (same messages in order, nothing skipped), exported again (byte-identical). File family: a 600 KB normal-form file is read the way `adlt convert` reads it (LowMarkBufReader, 512 KiB, low mark = the repository's DLT_MIN_PARSER_LOOKAHEAD_SIZE and DLT_MAX_STORAGE_MSG_SIZE) with a near-maximum message starting at every buffered-byte count around the low mark; every message must be exported, byte-identical. Non-trivial = export drops a header field (ECU/session id move) or payload > 255 bytes.".into(),
-            assumptions: vec!["storage micros < 10^6 (premise of the property)".into(), "CLI level (adlt convert -o twice) is covered by C14's -o clause".into()],
+            assumptions: vec!["storage micros < 10^6 (premise of the property)".into(), "CLI level: adlt convert -o on files with a near-maximum message at the start / inside / at the end (family cli_export); the option product is C14's".into()],
             budget_s: (40, 900),
             workers: 0,
-            required_landmarks: vec!["export_drops_header_field(WEID/WSID)", "serial_source", "max_size", "stream_with_embedded_marker", "file_window"],
+            required_landmarks: vec!["export_drops_header_field(WEID/WSID)", "serial_source", "max_size", "stream_with_embedded_marker", "file_window", "cli_export"],
         }
+    }
+    fn prepare(&self, _t: Tier) -> Result<(), String> {
+        crate::rem::build_adlt_bin()
     }
     fn run(&self, ctx: &mut Ctx) {
         let thorough = ctx.tier == Tier::Thorough;
@@ -324,6 +358,25 @@ impl Prop for C02 {
                 return;
             }
         }
+        // the export through the binary: a large message as first / inner / last message of the file
+        {
+            let lens: &[usize] = if thorough { &[60_000, 65_000, 65_500, 65_519, 65_520, 65_521, 65_522, 65_530, 65_534, 65_535] } else { &[65_000, 65_520, 65_521, 65_535] };
+            ctx.begin_family("cli_export", &format!("adlt convert -o on 6-message normal-form files, message at position {{0, 2, 5}} with std length in {:?}: output byte-identical", lens));
+            let dir = crate::rem::scratch_dir();
+            for &l in lens {
+                for pos in [0usize, 2, 5] {
+                    if ctx.mine() {
+                        let cj = || json!({"family": "cli_export", "big_std_len": l, "pos": pos});
+                        judge_cli_export(ctx, &dir, l, pos, &cj);
+                        ctx.transitions(1);
+                        ctx.eval(true);
+                        ctx.sample(cj);
+                    }
+                }
+            }
+            let _ = std::fs::remove_dir_all(&dir);
+            ctx.end_family(true);
+        }
         // file-level export: a large message at every buffered-byte count around the reader's low mark
         {
             use adlt::dlt::{DLT_MAX_STORAGE_MSG_SIZE, DLT_MIN_PARSER_LOOKAHEAD_SIZE};
@@ -376,7 +429,16 @@ impl Prop for C02 {
     }
     fn replay(&self, case: &Value, ctx: &mut Ctx) {
         ctx.mine();
-        if case["family"] == "file_windows" {
+        if case["family"] == "cli_export" {
+            if crate::rem::build_adlt_bin().is_err() {
+                return;
+            }
+            let dir = crate::rem::scratch_dir();
+            let cj = || case.clone();
+            judge_cli_export(ctx, &dir, case["big_std_len"].as_u64().unwrap() as usize, case["pos"].as_u64().unwrap() as usize, &cj);
+            let _ = std::fs::remove_dir_all(&dir);
+            ctx.eval(true);
+        } else if case["family"] == "file_windows" {
             let cj = || case.clone();
             judge_file_window(ctx, case["low_mark"].as_u64().unwrap() as usize, case["in_buf"].as_u64().unwrap() as usize, case["big_std_len"].as_u64().unwrap() as usize, &cj);
             ctx.eval(true);
